@@ -272,6 +272,7 @@ class World:
 
     # ------------------------------------------------------------------ snapshots
     def snapshot(self, tag):
+        self.__dict__.setdefault("_snap_clock", {})[tag] = self.now_ms
         dst = self.root + ".snap." + tag
         if os.path.exists(dst):
             shutil.rmtree(dst)
@@ -279,6 +280,8 @@ class World:
         return dst
 
     def restore(self, tag, keep=True):
+        self.now_ms = self.__dict__.get("_snap_clock", {}).get(tag, self.now_ms)
+        self.hang = False
         src = self.root + ".snap." + tag
         shutil.rmtree(self.root, ignore_errors=True)
         if keep:
